@@ -81,7 +81,8 @@ def run_driver(chk, beh, label, flavour="plain"):
     todo = list(beh)
     batches = 0
     base = 0            # behaviours of `beh` consumed by earlier batches (the driver numbers a batch's behaviours from 1)
-    while todo and batches < 40:
+    hangs = 0
+    while todo and batches < 40 and hangs < 3:       # three hangs are enough evidence; every further one costs the watchdog's 90 s
         batches += 1
         base = len(beh) - len(todo)
         script, trace = os.path.join(wd, "script%d.txt" % batches), os.path.join(wd, "trace%d.ndjson" % batches)
@@ -105,6 +106,7 @@ def run_driver(chk, beh, label, flavour="plain"):
             chk.report("C35.%s/%s" % (kind, (m.group(0)[:60] if m else "")), "driver died (rc=%d) while delivering remote input: %s" % (rc, out[-600:]),
                        crashed + [str(e) for e in events[-6:]], replay_name="C35.%s" % kind)
         events_all += events
+        hangs += 1 if rc == 6 else 0
         done = sum(1 for e in events if e["op"] == "reset")
         todo = todo[done:] if rc in (0,) else todo[max(done, 1):]
         if rc == 0:
